@@ -13,15 +13,20 @@ def run(ctx):
     res.rule("C06-R2", "reject paths are pure: no member of the entry is written before the last `return false` of addSegment")
     res.rule("C06-R3", "a first segment restarts unconditionally: the entry is overwritten by a freshly constructed SegmentedPacket, the old entry is not read")
     res.rule("C06-R4", "a rejected continuation or an invalid message discards the open message (erase); an unsegmented valid message is always delivered")
+    res.rule("C06-R5", "fragments of another endpoint cannot enter: every table access is keyed by this frame's {device id, stream id} and the key "
+                        "relation separates exactly the endpoints (C05-R1/R2)")
     res.not_decided += ["byte identity of everything delivered under every fault sequence; recovery as a liveness statement"]
     D.rule_accept_guard(res, "C06-R1", m)
     D.rule_modular_successor(res, "C06-R1", m)
     D.rule_reject_pure(res, "C06-R2", m)
     D.rule_first_restart(res, "C06-R3", m)
+    D.rule_keyed_access(res, "C06-R5", m)
+    D.rule_key_equality(res, "C06-R5", m)
     D.rule_loop_typestate(res, "C06-R4", m)
     D.rule_unsegmented_delivered(res, "C06-R4", m)
     res.floor("C06-R1", 20)
     res.floor("C06-R2", 4)
     res.floor("C06-R3", 1)
     res.floor("C06-R4", 7)
+    res.floor("C06-R5", 10)
     return res
